@@ -65,6 +65,46 @@ CHECKS['C18'] = (
  'Switches happen only at the declared points (calls of an allow-list, lines inside the check-then-act functions); a race inside '
  'a C extension with the GIL released is outside the model; the free-running real-thread pass is a reported sample, not a decider.',
  '§5 C18')
+CHECKS['C02'] = (
+ 'bounded exhaustive enumeration of all operand tuples from complete small value sets x operations x contexts x modes, each '
+ 'result compared with the exact result (rationals / exact algebraic reals) rounded once by the rounding oracle',
+ '21 operations x every pair (scale-reduced triples for fma) of a pool holding the complete value set of small floats plus '
+ 'zeros, infinities, NaN, non-dyadic Fractions, ints, Python floats and wide Floats x float/fixed/REAL target contexts x 8 '
+ 'modes; exact results from Fraction arithmetic and from sqrt/cbrt/hypot decided by integer root comparisons; IEEE 754 '
+ 'special-case tables per operation.',
+ 'Refusals (NotImplementedError) for non-dyadic operands and under REAL are counted, not judged; sign of exact zero sum under '
+ 'RTN, mod zero sign, hypot(inf,NaN), NaN**0, copysign(x,NaN) left open; inexact flag not judged.', '§5 C02')
+CHECKS['C03'] = (
+ 'bounded exhaustive enumeration of functions x complete small operand sets and hard points x precisions x modes, and of every '
+ 'constant x every precision 1..512 x modes, each compared with an MPFR directed-rounding enclosure (Ziv) rounded once',
+ '26 elementary/special functions over the complete value set of a 3-digit float on 11 binades plus structured hard points, '
+ 'under MPFloat p=1..12,24,53,64,113,237, small IEEE/MPS formats, binary16/32/64 and MPFixed targets (the two-pass precision '
+ 'branch), all 8 modes; all 12 named constants at EVERY precision 1..512 and MPFixed positions -200..5; exactness decided from '
+ 'a table of the rational cases before any evaluation.',
+ 'Trusted base: MPFR directed rounding at the oracle precision (a common-mode MPFR bug is out of scope); operands dyadic; '
+ 'magnitudes capped for exp-like functions; overflow flag and sign of a true zero result not judged.', '§5 C03')
+CHECKS['C06'] = (
+ 'bounded exhaustive enumeration of literal spellings from a grammar, each evaluated by the real front end and interpreter and '
+ 'compared with an exact spelling->rational reader (never float()) and the rounding oracle',
+ 'Every spelling of a literal grammar (signs x integer digits x fraction digits x exponents incl. e22/e23/e308/e309/e-324/e-400, '
+ 'long-digit spellings, integers around 2^53 and 10^22/10^23, hex-float strings, rational(p,q), digits(m,e,b), negated zeros) '
+ 'is compiled as `return <lit>` and `return round(<lit>)` and evaluated under REAL and three narrow contexts.',
+ 'A bare literal under a narrow context may be exact or rounded once (documentation: literals round when used); only '
+ 'sign-symmetric modes for negated literals; hex strings outside FPy''s own grammar not judged.', '§5 C06')
+CHECKS['C09'] = (
+ 'bounded exhaustive enumeration of caller/callee pairs and 3-chains x call positions x transformation pipelines x inputs x '
+ 'caller contexts, metamorphic comparison original vs transformed on the real interpreter',
+ 'All 1344 caller/callee pairs (3 callee contexts x 8 bodies x 28 call positions x 2 argument forms) and (thorough) all 2592 '
+ '3-chains, each under 20-25 single transformations (inline at every index/cursor/None with funcs filter and recursion on/off, '
+ 'monomorphize over the context and type pool, close, lift_context) and 54 ordered pairs, on 8-12 inputs x 3-5 caller contexts.',
+ 'Judged only where the original returns; a documented refusal (TransformError family etc.) is counted, not judged.', '§5 C09')
+CHECKS['C15'] = (
+ 'exhaustive enumeration of ALL programs up to a statement-count bound over a 19-construct alphabet, each pushed through the '
+ 'real front end; accepted ones run on all steering inputs; an independent scope model marks programs that must be rejected',
+ 'Every program of size <= 4 (quick; + a rotated slice of size 5) / <= 5 (thorough, 3.7 million programs) over assignments, '
+ 'tuple patterns, if/else, one-armed if, for, for-enumerate, while, with-as, comprehension, returns of every name and pass; '
+ 'accepted programs run on all 18 steering inputs (every branch outcome and trip count 0,1,2).',
+ 'Rejecting an acceptable program is not a violation; reads in dead code are not judged.', '§5 C15')
 PENDING = {}
 
 def main():
